@@ -796,11 +796,11 @@ func TestVerif_C33_GracefulSwitch(t *testing.T) {
 	for i, o := range ops {
 		names[i] = o.name
 	}
-	maxSC := r.Pick(1, 2)
+	maxSC := 2
 	r.Set(P, "max_subconns_per_policy", maxSC)
 	seqx.BFS(r, []string{P}, seqx.Config{
-		Name: "gsb", Ops: names, MaxDepth: r.Pick(6, 8), Parallel: 16,
-		Congruence: r.Thorough(), CongruenceMax: 200, MinStates: 100,
+		Name: "gsb", Ops: names, MaxDepth: r.Pick(7, 24), Parallel: 1, // sequential + GOMAXPROCS=1: see the note on the go1.25.0 WaitGroup/bubble bookkeeping in claims.json
+		Congruence: r.Thorough(), CongruenceMax: 1000, MinStates: 100,
 		Run: func(hist []int) seqx.Outcome { return c33Run(t, ops, maxSC, hist) },
 	})
 }
